@@ -28,6 +28,7 @@ EP_FN = {"exec": "execute", "query": "query", "sudo": "sudo", "instantiate": "in
 MSG_TY = {"exec": "ExecMsg", "query": "QueryMsg", "sudo": "SudoMsg", "instantiate": "InstantiateMsg", "migrate": "MigrateMsg"}
 WRAP_TY = {"exec": "ContractExecMsg", "query": "ContractQueryMsg", "sudo": "ContractSudoMsg"}
 ENUM_KINDS = ("exec", "query", "sudo")
+MT_IDS = ("S1", "R1", "R2")     # programs whose multitest proxies are exercised (C12)
 
 
 def val_ix(val, i):
@@ -210,6 +211,117 @@ def schema_src(prog):
     return "".join(o)
 
 
+def mt_src(prog):
+    """Multitest twin chains (C12): every operation through the generated proxies and as raw JSON."""
+    pid = prog["id"]
+    ifaces = [p for p in prog["parts"] if p["id"] != "own"]
+    own = [p for p in prog["parts"] if p["id"] == "own"][0]
+    inst = [m for m in own["methods"] if m["kind"] == "instantiate"][0]
+    mig = [m for m in own["methods"] if m["kind"] == "migrate"]
+
+    def lets(m, val):
+        return "".join("let %s: %s = %s; " % (a["n"], TYPES[a["t"]][0], TYPES[a["t"]][1][val_ix(val, i)][0]) for i, a in enumerate(m["args"]))
+
+    def args(m):
+        return ", ".join("%s.clone()" % a["n"] for a in m["args"])
+
+    def call(p, m):      # fully qualified: handlers of different parts / kinds may share names
+        tr = "sv::mt::CtrProxy" if p["id"] == "own" else "%s::sv::mt::%sProxy" % (p["id"], p["id"].capitalize())
+        a = args(m)
+        return "%s::%s(c%s)" % (tr, m["near"], (", " + a) if a else "")
+
+    def doc(m, val):
+        return json.dumps(('{"%s":%s}' % (m["wire"], body_json(m, val))) if m["kind"] in ENUM_KINDS else body_json(m, val))
+
+    o = ["    fn mt_histories(hists: &serde_json::Value) {\n"
+         "        use sylvia::cw_multi_test::Executor;\n        use sylvia::cw_std::{Addr, Binary, WasmMsg};\n"
+         "        use sv::mt::{CodeId, CtrProxy};\n        use verif_rrt::mt;\n"]
+    for p in ifaces:
+        o.append("        use %s::sv::mt::%sProxy;\n" % (p["id"], p["id"].capitalize()))
+    o.append("        for (hi, h) in hists.as_array().cloned().unwrap_or_default().iter().enumerate() {\n"
+             "            let app = sylvia::multitest::App::new(mt::seeded_app());\n            let mut raw = mt::seeded_app();\n"
+             "            let mut codes = vec![];\n            let mut raw_codes: Vec<u64> = vec![];\n"
+             "            let mut ctr_p = None;\n            let mut ctr_r: Option<Addr> = None;\n"
+             "            for (si, op) in h.as_array().cloned().unwrap_or_default().iter().enumerate() {\n"
+             "                let s = |k: &str| op[k].as_str().unwrap_or(\"\").to_string();\n"
+             "                let val = op[\"val\"].as_u64().unwrap_or(0);\n"
+             "                let f = mt::funds(op[\"funds\"].as_u64().unwrap_or(0));\n"
+             "                let (name, part, method) = (s(\"op\"), s(\"part\"), s(\"method\"));\n"
+             "                let sender = if s(\"sender\").is_empty() { mt::sender(\"alice\") } else { mt::sender(&s(\"sender\")) };\n"
+             "                let (pres, rres): (serde_json::Value, serde_json::Value) = match name.as_str() {\n"
+             "                    \"store\" => {\n                        codes.push(CodeId::store_code(&app));\n"
+             "                        raw_codes.push(raw.store_code(Box::new(Ctr::new())));\n"
+             "                        (serde_json::json!({\"ok\":true,\"kind\":\"none\"}), serde_json::json!({\"ok\":true,\"kind\":\"none\"}))\n                    }\n")
+    # instantiate
+    o.append("                    \"instantiate\" => {\n                        let code = codes.last().unwrap();\n"
+             "                        let (label, admin, salt) = (s(\"label\"), s(\"admin\"), s(\"salt\"));\n"
+             "                        let admin_addr = if admin.is_empty() { None } else { Some(mt::sender(&admin).to_string()) };\n"
+             "                        let (pr, docj) = match val {\n")
+    for val in (0, 1):
+        o.append("                            %d => { %slet mut b = code.instantiate(%s);\n"
+                 "                                if !label.is_empty() { b = b.with_label(&label); }\n"
+                 "                                if let Some(a) = &admin_addr { b = b.with_admin(Some(a.as_str())); }\n"
+                 "                                b = b.with_funds(&f);\n"
+                 "                                if !salt.is_empty() { b = b.with_salt(salt.as_bytes()); }\n"
+                 "                                (b.call(&sender), %s) }\n" % (val, lets(inst, val), args(inst), doc(inst, val)))
+    o.append("                            _ => unreachable!(),\n                        };\n"
+             "                        let rr: Result<sylvia::cw_multi_test::AppResponse, sylvia::anyhow::Error> = if salt.is_empty() {\n"
+             "                            raw.instantiate_contract(*raw_codes.last().unwrap(), sender.clone(), &mt::json_value(docj), &f, s(\"rawlabel\"), admin_addr.clone())\n"
+             "                                .map(|a| { ctr_r = Some(a); sylvia::cw_multi_test::AppResponse::default() })\n"
+             "                        } else {\n"
+             "                            let wm = WasmMsg::Instantiate2 { admin: admin_addr.clone(), code_id: *raw_codes.last().unwrap(), msg: Binary::from(docj.as_bytes().to_vec()), funds: f.clone(), label: s(\"rawlabel\"), salt: Binary::from(salt.as_bytes().to_vec()) };\n"
+             "                            let r = raw.execute(sender.clone(), wm.into());\n"
+             "                            if let Ok(a) = &r {\n"
+             "                                if let Some(d) = &a.data { if let Ok(i) = sylvia::cw_utils::parse_instantiate_response_data(d.as_slice()) { ctr_r = Some(Addr::unchecked(i.contract_address)); } }\n"
+             "                            }\n                            r\n                        };\n"
+             "                        let pres = match pr {\n"
+             "                            Ok(p) => { ctr_p = Some(p); serde_json::json!({\"ok\":true,\"kind\":\"resp\",\"resp\":{\"attrs\":[],\"event_types\":[],\"data\":\"\"},\"value\":{\"t\":\"-\"},\"err\":{\"class\":\"\",\"code\":0,\"text\":\"\"}}) }\n"
+             "                            Err(e) => mt::res_proxy(Err(e)),\n                        };\n"
+             "                        let mut rres = mt::res_raw(rr);\n"
+             "                        if rres[\"ok\"] == true { rres[\"resp\"] = serde_json::json!({\"attrs\":[],\"event_types\":[],\"data\":\"\"}); }\n"
+             "                        (pres, rres)\n                    }\n")
+    # exec / sudo / query
+    for kind in ("exec", "sudo", "query"):
+        o.append("                    \"%s\" => {\n                        let c = ctr_p.as_ref().unwrap();\n                        let ra = ctr_r.clone().unwrap();\n"
+                 "                        match (part.as_str(), method.as_str(), val) {\n" % kind)
+        for p in prog["parts"]:
+            for m in p["methods"]:
+                if m["kind"] != kind:
+                    continue
+                for val in (0, 1):
+                    if kind == "exec":
+                        o.append("                            (\"%s\", \"%s\", %d) => { %slet pr = %s.with_funds(&f).call(&sender);\n"
+                                 "                                let rr = raw.execute_contract(sender.clone(), ra.clone(), &mt::json_value(%s), &f);\n"
+                                 "                                (mt::res_proxy(pr), mt::res_raw(rr)) }\n" % (p["id"], m["name"], val, lets(m, val), call(p, m), doc(m, val)))
+                    elif kind == "sudo":
+                        o.append("                            (\"%s\", \"%s\", %d) => { %slet pr = %s;\n"
+                                 "                                let rr = raw.wasm_sudo(ra.clone(), &mt::json_value(%s));\n"
+                                 "                                (mt::res_proxy(pr), mt::res_raw(rr)) }\n" % (p["id"], m["name"], val, lets(m, val), call(p, m), doc(m, val)))
+                    else:
+                        o.append("                            (\"%s\", \"%s\", %d) => { %slet pr = %s;\n"
+                                 "                                let rr = mt::raw_query(&raw, &ra, %s);\n"
+                                 "                                (mt::res_value(pr.map(|v| rec::enc(&v)).map_err(|e| e.to_string()), %d), mt::res_value(rr, %d)) }\n" % (
+                                     p["id"], m["name"], val, lets(m, val), call(p, m), doc(m, val), m["code"], m["code"]))
+        o.append("                            _ => (serde_json::json!({\"ok\":false,\"kind\":\"absent\"}), serde_json::json!({\"ok\":false,\"kind\":\"absent\"})),\n                        }\n                    }\n")
+    if mig:
+        m = mig[0]
+        o.append("                    \"migrate\" => {\n                        let c = ctr_p.as_ref().unwrap();\n                        let ra = ctr_r.clone().unwrap();\n"
+                 "                        let new_p = codes.last().unwrap().code_id();\n                        let new_r = *raw_codes.last().unwrap();\n"
+                 "                        match val {\n")
+        for val in (0, 1):
+            o.append("                            %d => { %slet pr = %s.call(&sender, new_p);\n"
+                     "                                let rr = raw.migrate_contract(sender.clone(), ra.clone(), &mt::json_value(%s), new_r);\n"
+                     "                                (mt::res_proxy(pr), mt::res_raw(rr)) }\n" % (val, lets(m, val), call(own, m), doc(m, val)))
+        o.append("                            _ => unreachable!(),\n                        }\n                    }\n")
+    o.append("                    _ => (serde_json::json!({\"ok\":false,\"kind\":\"absent\"}), serde_json::json!({\"ok\":false,\"kind\":\"absent\"})),\n"
+             "                };\n"
+             "                let pa = ctr_p.as_ref().map(|p| p.contract_addr.clone());\n"
+             "                let pview = mt::view(&app.app(), pa.as_ref());\n                let rview = mt::view(&raw, ctr_r.as_ref());\n"
+             "                mt::emit_op(\"%s\", hi, si, op, pres, rres, pview, rview, pa == ctr_r);\n"
+             "            }\n        }\n    }\n\n" % pid)
+    return "".join(o)
+
+
 def variant_of_part(part):
     return "Ctr" if part["id"] == "own" else part["id"].capitalize()
 
@@ -304,8 +416,11 @@ def program_src(prog):
     o.append("    fn encode_events() {\n" + encode_src(prog) + "    }\n\n")
     o.append(remote_src(prog))
     o.append(schema_src(prog))
+    with_mt = prog["id"] in MT_IDS
+    if with_mt:
+        o.append(mt_src(prog))
     parts = ", ".join('"%s"' % p["id"] for p in prog["parts"])
-    o.append("    pub fn vt() -> ProgVt {\n        ProgVt { id: \"%s\", lists, decode_wrapper, decode_part, decode_struct, call_ep, call_mt, encode_events, schema_events: Some(schema_events), parts: &[%s], remote_events: Some(remote_events) }\n    }\n" % (pid, parts))
+    o.append("    pub fn vt() -> ProgVt {\n        ProgVt { id: \"%s\", lists, decode_wrapper, decode_part, decode_struct, call_ep, call_mt, encode_events, schema_events: Some(schema_events), parts: &[%s], remote_events: Some(remote_events), mt_histories: %s }\n    }\n" % (pid, parts, "Some(mt_histories)" if with_mt else "None"))
     o.append("}\n")
     return "".join(o)
 
